@@ -1,6 +1,7 @@
 """Path exploration by replay (DFS over decision scripts), path condition, obligations."""
 from __future__ import annotations
 
+import os
 import time
 from typing import Any, Dict, List, Optional
 
@@ -53,6 +54,7 @@ class Explorer:
         self.paths_run = 0
         self.max_paths = 4000
         self.feas_queries = 0
+        self.on_prune = None      # callback(cond): a branch was pruned as infeasible by the quick solver
 
     # -- fresh names (deterministic per path because the counter is reset) --
     def fresh_name(self, base):
@@ -102,8 +104,12 @@ class Explorer:
         return s.check()
 
     def feasible(self, cond=None) -> bool:
-        """pc (and cond) may be satisfiable; `unknown` counts as feasible."""
-        return self._quick([] if cond is None else [cond]) != z3.unsat
+        """pc (and cond) may be satisfiable; `unknown` counts as feasible.  A pruned branch is reported through
+        on_prune so that the claim `pc and cond is unsatisfiable` becomes a proof obligation of its own."""
+        r = self._quick([] if cond is None else [cond]) != z3.unsat
+        if not r and self.on_prune is not None and not self.nofork:
+            self.on_prune(cond)
+        return r
 
     def entails(self, cond) -> bool:
         """pc => cond proved by the quick solver (used only as an optimisation / for modelling choices)."""
@@ -152,6 +158,8 @@ class Explorer:
                 break
             i += 1
         if feas is None:
+            if os.environ.get('VERIF_TRACE'):
+                print('[no feasible option]', 'idx', idx, 'live', live); [print('   PC', str(c).replace(chr(10), ' ')[:400]) for c in self.st.pc]
             # record so that backtracking skips this point
             self.trace.append([n - 1, n])
             self.pos += 1
@@ -203,7 +211,9 @@ class Explorer:
                 except PathCut:
                     results.append(('cut', None, self.st))
                 except Infeasible:
-                    pass
+                    if os.environ.get('VERIF_TRACE'):
+                        import traceback
+                        print('[infeasible path]', self.st.sig[-6:], 'script', self.script, 'trace', self.trace)
                 except Restart:
                     restart = True
             finally:
